@@ -879,12 +879,27 @@ func longStream(shape, n int) []byte {
 	return s
 }
 
-func allocatedBy(f func()) uint64 {
-	var a, b runtime.MemStats
-	runtime.ReadMemStats(&a)
-	f()
-	runtime.ReadMemStats(&b)
-	return b.TotalAlloc - a.TotalAlloc
+// measured runs f on a goroutine of its own (so that it starts on a small
+// stack) and returns what it cost: the bytes it allocated and by how much the
+// stacks in use grew while it ran. Both are read from the runtime's own
+// counters; a stack that has grown is not shrunk again before the next
+// collection looks at the goroutine, so the high-water mark is still there
+// when f returns. No clock is consulted.
+func measured(f func()) (alloc, stack uint64, panicked bool, msg string) {
+	done := make(chan struct{})
+	go func() {
+		defer close(done)
+		var a, b runtime.MemStats
+		runtime.ReadMemStats(&a)
+		panicked, _, msg = guard(f)
+		runtime.ReadMemStats(&b)
+		alloc = b.TotalAlloc - a.TotalAlloc
+		if b.StackInuse > a.StackInuse {
+			stack = b.StackInuse - a.StackInuse
+		}
+	}()
+	<-done
+	return
 }
 
 // c02LinearCase: "work and rasteriser activity are linear in input length".
@@ -932,10 +947,23 @@ func c02LinearCase(ctx *Ctx, shape int) *report.Violation {
 		var act1, act4 int
 		ctx.SetLiteral(nil)
 		ctx.Beat()
-		a1 := allocatedBy(func() { act1 = r.run(small) })
+		a1, s1, p1, m1 := measured(func() { act1 = r.run(small) })
 		ctx.Beat()
-		a4 := allocatedBy(func() { act4 = r.run(big) })
+		a4, s4, p4, m4 := measured(func() { act4 = r.run(big) })
 		ctx.Beat()
+		lin := func(v *report.Violation) *report.Violation {
+			v.Trace = []string{fmt.Sprintf("shape %d: %s… repeated", shape, hexShort(small[:min(len(small), 40)], 80))}
+			v.Tape = []uint64{c02Linear, uint64(shape)}
+			v.KeepPrefix = 2
+			v.Signature = v.Invariant
+			return v
+		}
+		if p1 || p4 {
+			return lin(viol("C02", "panic", "%s panicked on a long well-formed stream (%d / %d bytes): %s%s", r.name, len(small), len(big), m1, m4))
+		}
+		if s4 > s1+(512<<10) {
+			return lin(viol("C02", "linear-work", "%s: reading a %d-byte stream grows the stack by %d bytes, the same shape at %d bytes by %d bytes: stack depth grows with the input (recursion instead of iteration), which ends in a fatal stack overflow for inputs of a few megabytes", r.name, len(small), s1, len(big), s4))
+		}
 		if a4 > 12*a1+(1<<20) {
 			v := viol("C02", "linear-work", "%s: a %d-byte stream makes it allocate %d bytes, the same shape at %d bytes %d bytes (%.1fx for 4x the input; amortised buffers stay below 8x, quadratic work gives 16x)", r.name, len(small), a1, len(big), a4, float64(a4)/float64(a1+1))
 			v.Trace = []string{fmt.Sprintf("shape %d: %s… repeated", shape, hexShort(small[:min(len(small), 40)], 80))}
@@ -955,6 +983,7 @@ func c02LinearCase(ctx *Ctx, shape int) *report.Violation {
 			ctx.Stats.Add("evaluations", 1)
 			ctx.Stats.Add("linear_work_measurements", 1)
 			ctx.Stats.Max("max_allocation_growth_x100_for_4x_input", int64(100*float64(a4)/float64(a1+1)))
+			ctx.Stats.Max("max_stack_growth_bytes_at_4n", int64(s4))
 			ctx.Stats.Distinct(fnvAdd(uint64(shape)<<8|uint64(len(r.name)), 6))
 		}
 	}
@@ -986,6 +1015,7 @@ func init() {
 					"random_streams":           s.Counters["random_streams"],
 					"linear_work_measurements_(9 shapes x 4 readers at n and 4n bytes)": s.Counters["linear_work_measurements"],
 					"largest_allocation_growth_for_4x_the_input":                        fmt.Sprintf("%.2fx", float64(s.Counters["max_allocation_growth_x100_for_4x_input"])/100),
+					"largest_stack_growth_while_reading_the_4n_stream_bytes":            s.Counters["max_stack_growth_bytes_at_4n"],
 					"prefix_comparisons":  s.Counters["prefix_checks"],
 					"calls_delivered":     s.Counters["calls_delivered"],
 					"raster_ops_recorded": s.Counters["raster_ops"],
